@@ -15,7 +15,7 @@ import itertools
 
 from .. import nodewalk, paths, tables
 from ..model import AnalysisError, Project, self_attr, walk_no_nested
-from ..report import Result
+from ..report import Result, ctx_of
 from .common import site, src
 
 PROP = 'C17'
@@ -48,18 +48,22 @@ def run(p: Project, tier: str) -> Result:
     seen = set()
     for ci in [base] + nodes:
         fi = p.method(ci.key, 'update_state')
-        if fi is not None and fi.key not in seen:
-            seen.add(fi.key)
+        r.ctx = ci.label             # inherited code is judged once per class that uses it
+        if fi is not None and (fi.key, ci.label) not in seen:
+            seen.add((fi.key, ci.label))
             check_update_state(p, ci.key, fi, r)
+    r.ctx = ''
     check_state_writers(p, nodes, r)
     ws = nodewalk.walks(p)
     for w in ws:
+        r.ctx = ctx_of(w)
         r.paths += w.npaths
         check_first_wait(w, r)
         check_final(p, w, r)
         check_occupancy(p, w, r)
     check_machine_groups(p, r)
     for w in ws:
+        r.ctx = ctx_of(w)
         check_thread_state_pairing(w, r)
         check_blocked_before_out_wait(w, r)
         check_classification(w, r)
